@@ -18,7 +18,7 @@ def _view(st, v):
     return map_view(st, v)
 
 
-def filter_contract(R, qual, src_name, out_name, allowed_of, extra_params=None):
+def filter_contract(R, qual, src_name, out_name, allowed_of, extra_params=None, optional=False):
     def mem(eng, st, allowed, k):
         return b2z(eng.contains(allowed, k, st, 0))
 
@@ -47,7 +47,7 @@ def filter_contract(R, qual, src_name, out_name, allowed_of, extra_params=None):
 
     params = {src_name: EXTRA}
     params.update(extra_params or {})
-    R.contract(qual, props=['C15'], params=params, ensures=post, raises={}, returns=EXTRA,
+    R.contract(qual, props=['C15'], params=params, optional=optional, ensures=post, raises={}, returns=EXTRA,
                loops={0: LoopSpec(invariant=inv, local_types={out_name: EXTRA})},
                twins=lambda c: {'keeps_everything': z3.ForAll([k_], z3.Select(_view(c.new.st, c.result)[0], k_) ==
                                                               z3.Select(_view(c.old.st, getattr(c, 'a_' + src_name))[0], k_))})
